@@ -1,23 +1,33 @@
 """C12 - asynchronous recording stores exactly what synchronous recording would."""
+import collections
 import itertools
 import json
 
-from lib.gallina import gbool, glist, gnat, gN
+from lib.gallina import gbool, glist, gN
+from lib.gallina import gnat as _gnat
 
 ID = "C12"
 RUN_MODULE = "RunC12"
 DRIVER = "async_driver.py"
 SHARD = 120
-RULE = ("one case = one workload (1-3 producers, set_data/add_metadata/save on 1-3 recordings, failing storage calls) "
+RULE = ("one case = one workload (1-3 producers, set_data/add_metadata/save on 1-3 recordings, failing storage calls; short: "
+        "up to 18 requests, or a long history: 10^2 .. 5*10^3 requests in the quick tier, up to 1.2*10^4 in the thorough tier) "
         "under one schedule (token schedule: producers' requests interleaved with the flusher's atomic steps) or under a "
         "family of schedules explored by the driver (bounded-preemption exhaustive or seeded random, at atomic or source-line "
         "granularity; the evidence counts such a case once, its schedules are in input_distribution as runs:*); "
-        "non-trivial = at least two requests; distinct = distinct (workload, schedule)")
+        "long histories run under token schedules that leave hundreds to thousands of requests pending when close() is "
+        "called (timer never fires / flusher inside a storage call while the burst arrives / one big batch flushed midway / "
+        "timer fires a few times), input_distribution shows pending-at-close:* and largest-flush-batch:* as measured on the "
+        "implementation's trace; non-trivial = at least two requests; distinct = distinct (workload, schedule)")
 EXHAUSTIVE = {"quick": True, "thorough": True}
 ASSUMPTIONS = [
     "atomic-step reduction: lock-protected regions are atomic and steps on disjoint state commute (gated by the ast check "
     "that every access to _recording_operation_buffer outside __init__ is lexically inside `with self._lock:`)",
-    "join(timeout_on_close) does not expire before the flusher finishes (the scheduled join never times out)",
+    "join(timeout_on_close) does not expire before the flusher finishes (the scheduled join never times out; with real "
+    "storage a backlog of thousands of operations can take longer than timeout_on_close - runtime, not checked)",
+    "history length: the theorems have no bound; the runs cover backlogs at close() up to ~4.9k requests (quick) / ~12k "
+    "(thorough), chosen to straddle 100, 256, 1000, 1024, 2048, 4096, 10000 - a size-dependent change that only shows "
+    "beyond that is not exercised",
     "wrapped storage failures are Exceptions (a BaseException would end the flusher thread)",
     "requests are issued through set_data / add_metadata / save_recording (Recording.__setitem__ bypasses the closed "
     "check of the AsyncRecording and is outside the modelled request alphabet)",
@@ -36,6 +46,7 @@ THEOREMS = ["C12_inv_init", "C12_inv_step", "C12_inv_reachable", "C12_async_refi
             "C12_runner_sound"]
 
 _FAILING = {}     # case key -> explicit failing schedule (filled by direct, used by shrink_candidates)
+_BACKLOG = {}     # case key -> (requests pending at close, largest batch) of token cases (filled by direct, used by features)
 _NRUNS = {}       # case key -> (schedules executed by the driver, distinct observations) (filled by direct, used by features)
 
 
@@ -43,7 +54,9 @@ _NRUNS = {}       # case key -> (schedules executed by the driver, distinct obse
 # workloads
 # --------------------------------------------------------------------------------------------------
 def _val(p, i, j=0):
-    return 1000 * (p + 1) + 10 * i + j
+    # unique per (producer, request, item): the spy identifies a storage call by its arguments.  Requests of the short
+    # workloads (i < 100) keep the small numbers they always had; long histories move to a wider stride.
+    return 1000 * (p + 1) + 10 * i + j if i < 100 else 10**6 * (p + 1) + 10 * i + j
 
 
 def op_set(rec, key, p, i, fail=0):
@@ -185,6 +198,119 @@ def mk(work, sched, label):
     return dict(nrec=nrec_of(work), work=work, sched=sched, label=label)
 
 
+# --------------------------------------------------------------------------------------------------
+# long histories: "every write requested before close is applied" has no bound on how many are pending
+# --------------------------------------------------------------------------------------------------
+def long_work(rng, nprod, total, nrec, pfail=0.003, own=False):
+    """A long recording session: `total` requests over nprod producers and nrec recordings.  Every recording is saved
+    once, by one producer, near the end of that producer's requests (so the tail of the history holds the saves and
+    whole small recordings); data keys repeat (later values overwrite), a few storage calls fail.  own: every producer
+    writes only the recordings it saves (free-running threads: their relative pace is not controlled)."""
+    nrec = max(nrec, nprod) if own else nrec
+    cuts = sorted(rng.sample(range(1, total), nprod - 1)) if nprod > 1 else []
+    sizes = [b - a for a, b in zip([0] + cuts, cuts + [total])]
+    while min(sizes) < nrec + 2:                      # room for the saves
+        k = sizes.index(min(sizes))
+        sizes[sizes.index(max(sizes))] -= nrec + 2
+        sizes[k] += nrec + 2
+    saver = [r % nprod if own else rng.randrange(nprod) for r in range(nrec)]
+    work = []
+    for p, n in enumerate(sizes):
+        mine = [r for r in range(nrec) if saver[r] == p]
+        rng.shuffle(mine)
+        tail = max(2 * len(mine), n // 25)
+        at = dict(zip(sorted(rng.sample(range(n - tail, n), len(mine))), mine))
+        ops, saved = [], set()
+        for i in range(n):
+            if i in at:
+                ops.append(op_save(at[i], rng.randrange(1, 5) if rng.random() < 10 * pfail else 0))
+                saved.add(at[i])
+                continue
+            free = [r for r in (mine if own else range(nrec)) if r not in saved]
+            rec = rng.choice(free) if free and rng.random() > 0.01 else rng.choice(mine if own else range(nrec))
+            # (else: a write after the producer's own save - refused at the caller)
+            fail = rng.randrange(1, 5) if rng.random() < pfail else 0
+            x = rng.random()
+            if x < 0.82:
+                ops.append(op_set(rec, rng.randrange(6), p, i, fail))
+            elif x < 0.94:
+                ops.append(op_meta(rec, rng.sample(range(4), rng.randrange(1, 3)), p, i, fail))
+            else:
+                ops.append(op_metamut(rec, rng.sample(range(4), rng.randrange(1, 3)), rng.randrange(4), p, i, fail))
+        work.append(ops)
+    return normalise(work)
+
+
+def burst_merge(rng, work):
+    """the producers' requests merged in bursts (runs of up to 60 requests of one producer); the producers advance at
+    the same relative pace, so that the saves at the end of each workload come late in the whole history (a write on a
+    recording whose save was already requested is refused at the caller and never pending)"""
+    left = [len(o) for o in work]
+    seq = []
+    while any(left):
+        p = rng.choices(range(len(left)), weights=left)[0]
+        k = rng.randrange(1, 2 + min(left[p], 60 * left[p] // max(left)))
+        k = min(k, left[p])
+        left[p] -= k
+        seq += [["P", p]] * k
+    return seq
+
+
+LONG_SHAPES = ("never-flushed", "slow-storage", "flushed-midway", "rare-timer")
+
+
+def long_tokens(rng, work, shape):
+    """Token schedules that leave a long backlog: the timer does not fire between the requests and close(), the flusher
+    sits inside a storage call while the burst arrives, or one big batch is flushed in the middle of the history."""
+    seq = burst_merge(rng, work)
+    n = len(seq)
+    if shape == "never-flushed":            # flush_interval longer than the session: everything is pending at close()
+        toks = seq
+    elif shape == "slow-storage":           # the flusher picked up the first few requests and is inside a storage call
+        k = rng.randrange(1, 6)
+        toks = seq[:k] + [["F"]] * rng.randrange(4, k + 5) + seq[k:]
+    elif shape == "flushed-midway":         # one flush in the middle: a big batch (complete, or still running while
+        k = rng.randrange(n // 5, n // 2)   # the rest arrives), then a big backlog at close()
+        nf = k + 8 if rng.random() < 0.5 else rng.randrange(4, k)
+        toks = seq[:k] + [["F"]] * nf + seq[k:]
+    else:                                   # the timer fires a few times, each time the flusher gets a few steps
+        cuts = sorted(rng.sample(range(1, n), min(n - 1, rng.randrange(2, 7))))
+        toks, a = [], 0
+        for c in cuts + [n]:
+            toks += seq[a:c] + ([["F"]] * rng.randrange(1, 40) if c < n else [])
+            a = c
+    return toks + [["C"]]
+
+
+def long_case(rng, shape, lo, hi, nprod, nrec):
+    w = long_work(rng, nprod, rng.randrange(lo, hi), nrec)
+    return mk(w, dict(kind="tokens", tokens=long_tokens(rng, w, shape)), "long-history-" + shape)
+
+
+def long_cases(rng, quick):
+    """Sizes straddle the round numbers a batching / capacity constant would plausibly have (100, 256, 1000, 1024, 2048,
+    4096, ..): a few cases per shape, the backlog at close() between ~10^2 and ~10^4 requests."""
+    plan = [("never-flushed", 101, 300, 1, 1), ("never-flushed", 1100, 1400, 1, 2), ("never-flushed", 2200, 2700, 2, 3),
+            ("never-flushed", 4400, 4900, 3, 3),
+            ("slow-storage", 257, 600, 2, 2), ("slow-storage", 1100, 1500, 3, 3), ("slow-storage", 2500, 3300, 1, 2),
+            ("flushed-midway", 300, 900, 2, 2), ("flushed-midway", 2100, 2900, 1, 3), ("flushed-midway", 3000, 4100, 3, 2),
+            ("rare-timer", 1100, 2000, 2, 3)]
+    if not quick:
+        for shape in LONG_SHAPES:
+            plan += [(shape, 60, 1000, 1 + j % 3, 1 + (j + 1) % 3) for j in range(4)]
+            plan += [(shape, 1001, 3000, 1 + j % 3, 1 + (j + 1) % 3) for j in range(3)]
+            plan += [(shape, 5000, 9000, 2 + j % 2, 3) for j in range(2)]
+        plan += [("never-flushed", 10001, 12000, 3, 3), ("slow-storage", 10001, 12000, 3, 2)]
+    out = [long_case(rng, *pl) for pl in plan]
+    if quick:
+        # the model follows a trace of n requests in ~n^2 list steps (10 s of one coqc for 4.8k requests): in the quick
+        # tier the largest history is checked by the direct predicate only, the thorough tier compares all of them
+        for c in out:
+            if nops(c["work"]) > 4000:
+                c["model"] = False
+    return out
+
+
 W_TINY2 = [[op_set(0, 0, 0, 0)], [op_set(0, 0, 1, 0)]]                                   # two producers, same key
 W_ONE3 = [[op_set(0, 0, 0, 0), op_meta(0, [0], 0, 1), op_save(0)]]                       # one producer, whole recording
 W_TWO3 = [[op_set(0, 0, 0, 0), op_save(0)], [op_set(1, 0, 1, 0)]]                        # same key on two recordings
@@ -246,6 +372,17 @@ def generate(rng, tier):
         for j in range(24):
             w = rand_work(rng, 1 + j % 3, 6, 1 + j % 3, pfail=0.1, after_save=0.0)
             heavy.append(mk(w, dict(kind="threads", runs=3, delay=[0.0, 0.003, 0.05][j % 3], switch=1e-5), "real-threads"))
+    # 6. long histories (hundreds to thousands of requests, big backlog at close / big batches): token schedules, full
+    #    model comparison; thorough adds free-running real threads with a flush interval longer than the session
+    #    (drawn last: the streams above are the same cases as before for every seed)
+    longs = long_cases(rng, quick)
+    if not quick:
+        for j, (n, interval, delay) in enumerate([(3000, 30.0, 0.0), (2600, 30.0, 0.0), (2500, 0.002, 0.0003)]):
+            w = long_work(rng, 1 + j % 3, n + rng.randrange(200), 1 + (j + 1) % 3, own=True)
+            longs.append(mk(w, dict(kind="threads", runs=3, delay=delay, switch=1e-5, interval=interval, burst=True),
+                            "long-history-real-threads"))
+    for j, c in enumerate(longs):          # spread between the random walks
+        heavy.insert(min(len(heavy), len(heavy) - 2 * j), c)
     # spread the heavy cases evenly (the driver is sharded over contiguous chunks), the explorations - heaviest - first
     expl = [c for c in heavy if c["sched"]["kind"] == "explore"]
     expl.sort(key=lambda c: -c["sched"]["max_runs"] * {"atomic": 1, "line": 2, "opcode": 2}[c["sched"]["gran"]])
@@ -273,6 +410,11 @@ def generate(rng, tier):
 # --------------------------------------------------------------------------------------------------
 def g_dict(items):
     return glist(["(%s, %s)" % (gN(k), gN(v)) for k, v in items])
+
+
+def gnat(n):
+    """nat literals are unary: indices of long histories are written in binary and converted by vm_compute"""
+    return _gnat(n) if n < 64 else "(N.to_nat %d%%N)" % n
 
 
 def g_op(i, op):
@@ -318,8 +460,8 @@ def to_gallina(case, obs, first_only=False):
         return "Gate false"
     if case["sched"]["kind"] == "gate":
         return "Gate %s" % gbool(obs["gate"]["ok"])
-    if "runs" not in obs:
-        return None             # real threads: implementation side only
+    if "runs" not in obs or case.get("model") is False:
+        return None             # real threads / the largest quick-tier history: implementation side only
     work = glist([glist([g_op(i, op) for i, op in enumerate(ops)]) for ops in case["work"]])
     runs = obs["runs"][:1] if first_only else obs["runs"]
     terms = []
@@ -376,15 +518,17 @@ def run_failures(case, r):
             elif c == "refused" and work[p][i]["k"] == "save":
                 add("request-raised", "save request %s raised AssertionError at the caller" % ((p, i),))
     app = [(p, i) for p, i, _ in r["applied"]]
-    lost = [x for x in accepted if x not in app]
+    app_set, acc_set = set(app), set(accepted)
+    lost = [x for x in accepted if x not in app_set]
     if lost:
         first_fail = next((k for k, (_, _, ok) in enumerate(r["applied"]) if not ok), None)
         add("lost-op", "requests accepted before close never reached the wrapped cassette: %s%s" %
             (lost[:6], " (a storage call had failed before)" if first_fail is not None else ""))
-    if len(set(app)) != len(app):
+    if len(app_set) != len(app):
+        cnt = collections.Counter(app)
         add("duplicated-op", "an operation reached the wrapped cassette more than once: %s" %
-            sorted(set(x for x in app if app.count(x) > 1))[:6])
-    extra = [x for x in app if x not in accepted]
+            sorted(x for x in cnt if cnt[x] > 1)[:6])
+    extra = [x for x in app if x not in acc_set]
     if extra:
         add("applied-unaccepted-op", "operations reached the wrapped cassette whose request did not return normally: %s" % extra[:6])
     if r.get("phantom"):
@@ -412,10 +556,17 @@ def run_failures(case, r):
         pos = {}
         for k, x in enumerate(lab):
             pos.setdefault(x, k)
-        # real-time order: a call that returned before another one began must be applied first
-        bad = [(a, b) for a in pos for b in pos if a in end and b in begin and end[a] < begin[b] and pos[b] < pos[a]]
-        if bad:
-            out.append(("reordered-across-producers", "request %s returned before %s began, but was applied after it" % bad[0]))
+        # real-time order: a call that returned before another one began must be applied first.  (One backward pass:
+        # for every b, the earliest-returned request among those applied after b - histories of thousands of requests.)
+        seq = sorted(pos, key=pos.get)
+        best = None
+        for b in reversed(seq):
+            if best is not None and b in begin and end[best] < begin[b]:
+                out.append(("reordered-across-producers",
+                            "request %s returned before %s began, but was applied after it" % (best, b)))
+                break
+            if b in end and (best is None or end[b] < end[best]):
+                best = b
         return out
     classes = {}
     for k, (p, i) in enumerate(app):
@@ -461,15 +612,44 @@ def run_failures(case, r):
         add("ops-left-in-buffer", "%s operations still buffered after close()" % r["leftover"])
     # a refusal at the caller needs a reason: a write on a recording whose save was requested before the call ended
     if "trace" in r:
+        save_begin = {}
+        for q, ops in enumerate(work):
+            for j, op in enumerate(ops):
+                if op["k"] == "save" and (q, j) in begin:
+                    save_begin[op["rec"]] = min(save_begin.get(op["rec"], 10**9), begin[(q, j)])
         for p, ops in enumerate(calls):
             for i, c in enumerate(ops):
                 if c == "refused" and work[p][i]["k"] != "save":
                     rec = work[p][i]["rec"]
-                    ok = any(work[q][j]["k"] == "save" and work[q][j]["rec"] == rec and begin.get((q, j), 10**9) < end.get((p, i), -1)
-                             for q in range(len(work)) for j in range(len(work[q])))
+                    ok = save_begin.get(rec, 10**9) < end.get((p, i), -1)
                     if not ok:
                         add("refused-without-reason", "write %s refused although no save of recording %d was requested" % ((p, i), rec))
     return fails
+
+
+def backlog_at_close(trace):
+    """(requests enqueued and not yet handed to the wrapped cassette when close() set the stop event,
+    largest number of operations the flusher executed between two swaps)"""
+    pend, at_close, batch, big = 0, None, 0, 0
+    for ev in trace:
+        if ev[0] == "P":
+            pend += 1
+        elif ev[0] == "X":
+            pend -= 1
+            batch += 1
+            big = max(big, batch)
+        elif ev[0] == "S":
+            batch = 0
+        elif ev[0] == "C" and at_close is None:
+            at_close = pend
+    return (at_close if at_close is not None else pend, big)
+
+
+def _bucket(n):
+    for lim, name in ((10, "<10"), (100, "10-99"), (1001, "100-1000"), (2049, "1001-2048"), (4097, "2049-4096")):
+        if n < lim:
+            return name
+    return "4097+"
 
 
 def _key(case):
@@ -493,6 +673,8 @@ def direct(case, obs):
                 out[sig + "(real-threads)"] = per[0][sig]
         return sorted(out.items())
     _NRUNS[_key(case)] = (obs.get("nruns", 1), len(obs["runs"]), bool(obs.get("truncated")))
+    if kind == "tokens" and obs["runs"] and "trace" in obs["runs"][0]:
+        _BACKLOG[_key(case)] = backlog_at_close(obs["runs"][0]["trace"])
     for r in obs["runs"]:
         for sig, msg in run_failures(case, r):
             if sig not in out:
@@ -501,9 +683,28 @@ def direct(case, obs):
     return sorted(out.items())
 
 
+def _fit_tokens(toks, work, head):
+    """the schedule without the tokens of requests that were cut away (the first ones of a producer whose oldest
+    requests were cut, else the last ones)"""
+    need = [len(o) for o in work]
+    have = [sum(1 for t in toks if t[0] == "P" and t[1] == p) for p in range(len(work))]
+    skip = [max(0, h - n) if head else 0 for h, n in zip(have, need)]
+    out = []
+    for t in toks:
+        if t[0] == "P" and t[1] < len(work):
+            if skip[t[1]]:
+                skip[t[1]] -= 1
+                continue
+            if not need[t[1]]:
+                continue
+            need[t[1]] -= 1
+        out.append(t)
+    return out
+
+
 def shrink_candidates(case):
     sc = case["sched"]
-    base = {k: v for k, v in case.items() if k not in ("origin",)}
+    base = {k: v for k, v in case.items() if k not in ("origin", "model")}     # (shrunk cases are compared with the model)
     if sc["kind"] in ("explore", "random"):
         for (k, sig), (gran, choices) in list(_FAILING.items()):
             if k == _key(case) and choices:
@@ -513,6 +714,26 @@ def shrink_candidates(case):
         for n in (len(ch) // 2, 3 * len(ch) // 4, len(ch) - 4, len(ch) - 1):
             if 0 <= n < len(ch):
                 yield dict(base, sched=dict(sc, choices=ch[:n]))
+    elif sc["kind"] == "tokens" and nops(case["work"]) > 40:
+        # long history: first without any flusher step before close, then the producers cut by halves, quarters, ..
+        # (whole producers, then the oldest / the newest requests of each; the schedule keeps the tokens of the rest); nrec stays
+        toks = sc["tokens"]
+        if any(t[0] == "F" for t in toks):
+            yield dict(base, sched=dict(sc, tokens=[t for t in toks if t[0] != "F"]))
+        if len(case["work"]) > 1:
+            for p in range(len(case["work"])):
+                yield dict(base, work=[o for q, o in enumerate(case["work"]) if q != p],
+                           sched=dict(sc, tokens=[[t[0], t[1] - (t[1] > p)] if t[0] == "P" else t for t in toks
+                                                  if not (t[0] == "P" and t[1] == p)]))
+        for den in (2, 4, 8, 16, 32, 64, 128):
+            for p, ops in enumerate(case["work"]):
+                cut = len(ops) // den if den < 128 else 1
+                if 0 < cut < len(ops):
+                    for head in (True, False):      # the oldest requests first: the saves sit at the end
+                        w = [list(o) for o in case["work"]]
+                        w[p] = w[p][cut:] if head else w[p][:len(ops) - cut]
+                        yield dict(base, work=normalise(json.loads(json.dumps(w))),
+                                   sched=dict(sc, tokens=_fit_tokens(toks, w, head)))
     elif sc["kind"] == "tokens":
         toks = sc["tokens"]
         for i in range(len(toks)):
@@ -562,6 +783,16 @@ def features(case):
     w = case["work"]
     f.add("producers=%d" % len(w))
     f.add("requests=%s" % (nops(w) if nops(w) < 6 else "6+"))
+    if nops(w) >= 100:
+        f.add("requests-total:" + _bucket(nops(w)))
+    if case.get("label", "").startswith("long-history"):
+        f.add(case["label"])
+    if case.get("model") is False:
+        f.add("implementation-only(direct predicate)")
+    if _key(case) in _BACKLOG:
+        at_close, big = _BACKLOG[_key(case)]
+        f.add("pending-at-close:" + _bucket(at_close))
+        f.add("largest-flush-batch:" + _bucket(big))
     f.add("recordings=%d" % case["nrec"])
     kinds = {op["k"] for ops in w for op in ops}
     f |= {"op:" + k for k in kinds}
@@ -592,7 +823,7 @@ def nontrivial(case):
 
 MANIFEST = dict(
     design_ref='6/C12',
-    text='Coq theorems over ALL reachable states of a producer/buffer/flusher transition system (any number of producers, any workloads of set_data/add_metadata/save with failing storage calls, any interleaving, any timer firing pattern): invariant applied++batch++buffer = enqueue order; when the flusher is done every accepted request was applied exactly once in enqueue order and the wrapped cassette and every outcome equal the synchronous run (sync_apply), also when callers keep changing a metadata dict after passing it (legacy defect F12 refuted with a witness, repaired by ba7c02c); failure does not block; producers blocked only inside the two-statement swap; termination within |buffer|+|batch|+8 flusher steps after close. Model tied to /repo on every run by driving the REAL AsyncRecordOnlyTapeCassette/AsyncRecording under deterministic schedules (cooperative scheduler over substituted Thread/Lock/Event, re-entrant spy cassette, sys.settrace line stepping): exhaustive token interleavings of small workloads, bounded-preemption exhaustive exploration at atomic and source-line granularity, seeded random walks; Coq replays every implementation trace (each step must be enabled) and compares applied order, outcomes, stored recordings. ast gate: every buffer access under the lock. Direct predicate on the implementation: exactly-once, per-producer and real-time order, contents == synchronous twin, no storage call on caller threads, callers never blocked by a storage call, no deadlock; thorough adds free-running real threads.',
+    text='Coq theorems over ALL reachable states of a producer/buffer/flusher transition system (any number of producers, any workloads of set_data/add_metadata/save with failing storage calls, any interleaving, any timer firing pattern): invariant applied++batch++buffer = enqueue order; when the flusher is done every accepted request was applied exactly once in enqueue order and the wrapped cassette and every outcome equal the synchronous run (sync_apply), also when callers keep changing a metadata dict after passing it (legacy defect F12 refuted with a witness, repaired by ba7c02c); failure does not block; producers blocked only inside the two-statement swap; termination within |buffer|+|batch|+8 flusher steps after close. Model tied to /repo on every run by driving the REAL AsyncRecordOnlyTapeCassette/AsyncRecording under deterministic schedules (cooperative scheduler over substituted Thread/Lock/Event, re-entrant spy cassette, sys.settrace line stepping): exhaustive token interleavings of small workloads, bounded-preemption exhaustive exploration at atomic and source-line granularity, seeded random walks, and long histories (10^2..10^4 requests, 1-3 producers) under schedules that leave hundreds to thousands of requests pending at close() or in one flush batch (timer never fires, flusher inside a storage call while the burst arrives, one big flush midway, rare timer); Coq replays every implementation trace (each step must be enabled) and compares applied order, outcomes, stored recordings. ast gate: every buffer access under the lock. Direct predicate on the implementation: exactly-once, per-producer and real-time order, contents == synchronous twin, no storage call on caller threads, callers never blocked by a storage call, no deadlock; thorough adds free-running real threads (also bursts of thousands of requests with a flush interval longer than the session).',
     note='Trusted: Coq kernel + vm_compute; hand-written model; atomic-step reduction (argued, gated by the ast lock check); the cooperative scheduler and trace projection of the driver; join timeout expiry, daemon-thread death at interpreter exit and true parallel lock behaviour are runtime (partial).',
     technique='Coq proof (invariant over a step relation, refinement to a synchronous fold) + trace-replay correspondence by vm_compute + systematic schedule exploration of the real code',
 )
